@@ -663,6 +663,29 @@ func runC07(c *h.Ctx) {
 			}
 			domCheck(api, tree.Next)
 			cs.Cover("api_" + api)
+			if !recurse {
+				// lazy loading continued on demand: a message-typed child is loaded in its turn
+				for i := range tree.Next {
+					ch := &tree.Next[i]
+					fd := pc.Root.Fields().ByNumber(protoreflect.FieldNumber(ch.Path.Id()))
+					if fd == nil || fd.IsList() || fd.IsMap() || fd.Kind() != protoreflect.MessageKind || !m.Has(fd) {
+						continue
+					}
+					cnt := 0
+					m.Get(fd).Message().Range(func(protoreflect.FieldDescriptor, protoreflect.Value) bool { cnt++; return true })
+					if cnt == 0 {
+						continue
+					}
+					if err := ch.Load(false, opts, desc.Message().ByNumber(dproto.FieldNumber(fd.Number())).Type()); err != nil {
+						cs.Viol("pread:Load-lazy:child-message-Load:error", "field", fd.Number(), "err", err, "child-raw", hexs(ch.Node.Raw()))
+					} else if len(ch.Next) != cnt {
+						cs.Viol("pread:Load-lazy:child-message-Load:child-count", "field", fd.Number(), "got", len(ch.Next), "want", cnt)
+					} else {
+						cs.Cover("lazy_child_message_loaded")
+					}
+					break
+				}
+			}
 		}
 		{
 			var kids []pg.PathNode
